@@ -139,6 +139,21 @@ def long_work(rule_name):
                 acc.outcome(label)
                 if probs:
                     acc.add_problems(probs)
+                if r == 2 and not probs:
+                    # a candidate that still carries a link to ANOTHER node (the copy of an attached node keeps its source's
+                    # parent; Node(name, parent=q) sets one): the answer is about the parent that was passed
+                    other = Node(parent.name, id="Q")
+                    other.children = [child_nodes[a] for a in reversed(s)][: max(1, len(s) // 3)]
+                    linked = Node(c, id="linked", parent=other)
+                    parent.children = [child_nodes[a] for a in s]
+                    try:
+                        i1 = robj.child_insert_index(parent, child_nodes[c])
+                        i2 = robj.child_insert_index(parent, linked)
+                    except Exception as e:  # noqa
+                        i1, i2 = "raised", repr(e)
+                    if i1 != i2:
+                        acc.add_problem(problem("answer_depends_on_candidates_parent_link", {"rule": rule_name, "seq": list(s), "candidate": c},
+                                                expected=i1, observed=i2, rule=rule_name))
     acc.count("long_sequences", n)
     return acc
 
@@ -221,6 +236,14 @@ def refusal_work(rule_name):
             if not isinstance(exc, ChildNotAllowedError):
                 acc.add_problem(problem("foreign_not_refused", case, expected="ChildNotAllowedError",
                                         observed=repr(exc) if exc else idx, rule=rule_name))
+            # ... and having been asked (and having refused) does not make the name any more allowed
+            try:
+                still = robj.is_allowed_child(x)
+            except Exception as e:  # noqa
+                still = repr(e)
+            if still is not False:
+                acc.add_problem(problem("is_allowed_child_wrong", dict(case, after="a refused child_insert_index"), expected=False,
+                                        observed=still, rule=rule_name))
     return acc
 
 
